@@ -24,7 +24,7 @@ RULE = (
     "constraint upper-only/lower-only/equality/two-sided; hypothesis tier: n<=40 with ties, arbitrary "
     "float percentiles, weighted multi-objective keys, plus end-to-end runs through EnsembleEvaluator. "
     "Oracle = exact rational staircase clip(p - j/m, 0, 1/m). "
-    "Non-trivial: m>=2 successes and 0 < p*m < m (a proper tail), or p*m within 1 ulp of an integer."
+    "A filter object may be asked several times with other values and failures. Non-trivial: m>=2 successes and 0 < p*m < m (a proper tail), or p*m within 1 ulp of an integer."
 )
 ASSUMPTIONS = [
     "filter inputs satisfy the caller-guaranteed precondition: a failed realization is an all-NaN row",
@@ -131,6 +131,9 @@ def run_filter(case: dict[str, Any]) -> None:
     sort = case.get("sort")
     flt, cfg = make_filter(n, flavour, p, obj_w, sort, spelling=case.get("spelling"))
     run_with_filter(flt, cfg, case, values, failed)
+    for step, later in enumerate(case.get("history") or [], start=2):  # the same filter object is asked again (other values, other failures)
+        sub = {**case, "failed": later["failed"], "values": later["values"], "call": step}
+        run_with_filter(flt, cfg, sub, np.array(later["values"], dtype=np.float64), np.array(later["failed"], dtype=bool))
 
 
 def run_with_filter(flt: Any, cfg: EnOptConfig, case: dict[str, Any], values: np.ndarray, failed: np.ndarray) -> None:  # noqa: ANN401
@@ -246,6 +249,13 @@ def hypothesis_shard(item: dict[str, Any]) -> Collector:
         else:
             case["values"] = draw(st.lists(value, min_size=n, max_size=n))
         case["e2e"] = draw(st.booleans())
+        if not case["e2e"] and draw(st.booleans()):  # the filter object is used for several evaluations
+            case["history"] = []
+            for _ in range(draw(st.integers(1, 2))):
+                later_failed = draw(st.lists(st.booleans(), min_size=n, max_size=n))
+                later_values = ([[draw(value) for _ in range(len(case["values"][0]))] for _ in range(n)] if isinstance(case["values"][0], list)
+                                else draw(st.lists(value, min_size=n, max_size=n)))
+                case["history"].append({"failed": later_failed, "values": later_values})
         if draw(st.integers(0, 4)) == 0:  # several CVaR filters in one configuration, each ranking its own function
             n = draw(st.integers(1, 8))
             failed = draw(st.lists(st.booleans(), min_size=n, max_size=n))
@@ -274,7 +284,7 @@ def hypothesis_shard(item: dict[str, Any]) -> Collector:
         vals = np.array(case["values"], dtype=np.float64).reshape(failed.size, -1)
         ties = m - len({tuple(r) for r in vals[~failed].tolist()})
         col.case(case, nontrivial=nontrivial(case["percentile"], m),
-                 classes=(case["flavour"], "e2e" if case.get("e2e") else "direct",
+                 classes=(case["flavour"], "e2e" if case.get("e2e") else "direct", "filter-object-reused" if case.get("history") else "single-call",
                           "ties" if ties else "no-ties", "multi-key" if "sort" in case else "single-key",
                           "all-failed" if m == 0 else "some-success"))
 
